@@ -14,6 +14,8 @@ def classify(prop, cfg, impl_line, model_line):
         kind = "V" if "V" in rel else "C"
     if (impl_line or "").startswith("TTL") or (model_line or "").startswith("TTL"):
         kind = "T"
+    if (impl_line or "").startswith("MEM ") or (model_line or "").startswith("MEM "):
+        kind = "C"
     if (impl_line or "").startswith("HANG") or (impl_line or "").startswith("STUCK"):
         return True, "a request that never returned"
     return kind in rel, KINDS.get(kind, kind)
